@@ -18,11 +18,9 @@ def sh(cmd, **kw):
 
 
 def run_one(patch, ids, tier, seed):
-    wt = "/tmp/verif-mut-%d-%d" % (os.getpid(), int(time.time() * 1000) % 100000)
-    r = sh("git -C /repo worktree add --detach %s HEAD" % wt)
-    if r.returncode != 0:
-        print(r.stdout)
-        return {}
+    sys.path.insert(0, os.path.dirname(os.path.abspath(__file__)))
+    import slots
+    wt = slots.acquire()
     res = {}
     try:
         r = sh("git -C %s apply --whitespace=nowarn %s" % (wt, patch))
@@ -37,8 +35,7 @@ def run_one(patch, ids, tier, seed):
             tail = [l for l in r.stdout.splitlines() if l.startswith(("VIOLATION", "violation detail", "INCONCLUSIVE", "OK", "BUILD-FAILED"))]
             print("%-40s %s %-12s %.0fs  %s" % (os.path.basename(os.path.dirname(patch)) or patch, i, res[i], time.time() - t0, " | ".join(tail)[:300]), flush=True)
     finally:
-        sh("git -C /repo worktree remove --force %s" % wt)
-        sh("git -C /repo worktree prune")
+        slots.release(wt)
     return res
 
 
